@@ -7,6 +7,7 @@ import (
 
 	"github.com/ethereum/go-ethereum/consensus/misc"
 	ethtypes "github.com/ethereum/go-ethereum/core/types"
+	ethparams "github.com/ethereum/go-ethereum/params"
 
 	sdk "github.com/cosmos/cosmos-sdk/types"
 
@@ -28,12 +29,19 @@ func (k Keeper) CalculateBaseFee(ctx sdk.Context) sdkmath.Int {
 		gasLimit = new(big.Int).SetUint64(math.MaxUint64)
 	}
 
-	nextBaseFee := misc.CalcBaseFee(k.evmKeeper.GetChainConfig(ctx), &ethtypes.Header{
-		Number:   big.NewInt(ctx.BlockHeight()),
-		GasLimit: gasLimit.Uint64(),
-		GasUsed:  ctx.BlockGasMeter().GasConsumedToLimit(),
-		BaseFee:  params.BaseFee.BigInt(),
-	})
+	var nextBaseFee *big.Int
+	if gasLimit.Uint64()/ethparams.ElasticityMultiplier == 0 {
+		// a gas target of zero (MaxGas 0 or 1) gives usage nothing to be measured against,
+		// and dividing by it would panic: keep the current base fee
+		nextBaseFee = params.BaseFee.BigInt()
+	} else {
+		nextBaseFee = misc.CalcBaseFee(k.evmKeeper.GetChainConfig(ctx), &ethtypes.Header{
+			Number:   big.NewInt(ctx.BlockHeight()),
+			GasLimit: gasLimit.Uint64(),
+			GasUsed:  ctx.BlockGasMeter().GasConsumedToLimit(),
+			BaseFee:  params.BaseFee.BigInt(),
+		})
+	}
 
 	// Set global min gas price as lower bound of the base fee, transactions below
 	// the min gas price don't even reach the mempool.
